@@ -2,7 +2,7 @@ package assign
 
 import (
 	"fmt"
-	"math"
+	"math/bits"
 
 	"github.com/pkg/errors"
 	"github.com/ysugimoto/falco/v2/interpreter/value"
@@ -19,13 +19,9 @@ func LeftRotate(left, right value.Value) error {
 	}
 	lv := value.Unwrap[*value.Integer](left)
 	rv := value.Unwrap[*value.Integer](right)
-	v := (lv.Value << rv.Value) | (lv.Value >> (64 - rv.Value))
-	if int64(v) > int64(math.MaxInt64) {
-		lv.Value = 0
-		lv.IsPositiveInf = true
-	} else {
-		lv.Value = v
-	}
+	// Rotate the unsigned 64-bit pattern: a signed right shift would smear the sign bit
+	// over the result, and Go panics on a negative shift count.
+	lv.Value = int64(bits.RotateLeft64(uint64(lv.Value), int(rv.Value%64)))
 	return nil
 }
 
@@ -40,12 +36,7 @@ func RightRotate(left, right value.Value) error {
 	}
 	lv := value.Unwrap[*value.Integer](left)
 	rv := value.Unwrap[*value.Integer](right)
-	v := (lv.Value >> rv.Value) | (lv.Value << (64 - rv.Value))
-	if int64(v) > int64(math.MaxInt64) {
-		lv.Value = 0
-		lv.IsPositiveInf = true
-	} else {
-		lv.Value = v
-	}
+	// See LeftRotate: rotating right by n is rotating left by -n.
+	lv.Value = int64(bits.RotateLeft64(uint64(lv.Value), -int(rv.Value%64)))
 	return nil
 }
